@@ -84,6 +84,7 @@ type interpreter struct {
 	counts  map[string]int
 	res     *PathResult
 	instrs  int64
+	satKnown bool
 	tainted bool // a solver "unknown" was taken as feasible on this path
 
 	// scheduler
@@ -578,6 +579,9 @@ func callSSA(i *interpreter, caller *frame, callpos token.Pos, fn *ssa.Function,
 		panic(engineAbort{"recursion depth bound exceeded in " + fn.String()})
 	}
 	if fn.Parent() == nil {
+		if fn.Name() == "init" && fn.Pkg != nil && fn.Signature.Recv() == nil && !i.ld.initSet[fn.Pkg] {
+			return nil // initialiser of a package that is not under test: not run (its globals come from stubs)
+		}
 		name := fn.String()
 		if ext := externals[name]; ext != nil {
 			return ext(fr, args)
